@@ -34,6 +34,18 @@ static bool lib_encode(const Case &c, const Bytes &p, Bytes &out, int &rc) {
     return rc >= 0;
 }
 
+// one device object behind both endpoints (a UART handle that serves the receive and the transmit side): source and sink carry the same driver cookie
+struct Duplex {
+    Bytes in, out; size_t pos = 0; Source src; Sink snk;
+    explicit Duplex(Bytes i, bool chunk) : in(std::move(i)) {
+        if (chunk) { chunk_source_init(&src, &Duplex::rd, this); chunk_sink_init(&snk, &Duplex::wr, this); }
+        else { octet_source_init(&src, &Duplex::rd1, this); octet_sink_init(&snk, &Duplex::wr1, this); }
+    }
+    static ssize_t rd(void *d, void *o, size_t n) { Duplex *x = (Duplex *)d; if (x->pos >= x->in.size()) return -ENODATA; size_t k = std::min(n, x->in.size() - x->pos); memcpy(o, x->in.data() + x->pos, k); x->pos += k; return (ssize_t)k; }
+    static ssize_t wr(void *d, const void *i, size_t n) { Duplex *x = (Duplex *)d; x->out.insert(x->out.end(), (const uint8_t *)i, (const uint8_t *)i + n); return (ssize_t)n; }
+    static int rd1(void *d, void *o) { return (int)rd(d, o, 1); }
+    static int wr1(void *d, unsigned char c) { return (int)wr(d, &c, 1); }
+};
 // ---- (a) payload round trip, structure, bound
 static void role_payload(const Case &c, std::vector<Bytes> &recent) {
     const Bytes &p = c.s;
@@ -55,6 +67,15 @@ static void role_payload(const Case &c, std::vector<Bytes> &recent) {
         if (d != 1) F(c, "roundtrip-return", vp::fmt("decode of the encoding returned %d, not end-of-frame", d));
         else if (snk.got != p) F(c, "roundtrip-payload", "decoded " + vp::hex(snk.got) + " from " + vp::hex(enc));
         else if (src.pos != enc.size()) F(c, "roundtrip-consumed", "decoder did not consume exactly the frame");
+    }
+    // the same through one device object that is source and sink at once
+    {
+        Duplex de(p, c.kinds & 1); RFC1055Context ctx; ctx_init(ctx, c.sof);
+        int er = rfc1055_encode(&ctx, &de.src, &de.snk);
+        if (er < 0 || de.out != enc) { F(c, "duplex-device:encode", vp::fmt("source and sink share one driver object: encode returned %d and produced %s", er, vp::hex(de.out).c_str())); return; }
+        Duplex dd(enc, c.kinds & 1); RFC1055Context dctx; ctx_init(dctx, c.sof);
+        int dr = rfc1055_decode(&dctx, &dd.src, &dd.snk);
+        if (dr != 1 || dd.out != p) { F(c, "duplex-device:decode", vp::fmt("source and sink share one driver object: decode returned %d with payload %s", dr, vp::hex(dd.out).c_str())); return; }
     }
     // concatenation with the previous payloads
     // companions derived from p itself, so that the case is self-contained
